@@ -94,6 +94,23 @@ func bigProg(n int, tag byte) []byte {
 	return append(p, 0x75, 0x51)
 }
 
+// wire returns the transaction as a node receives it (decoded from its serialisation: the decoder sets
+// SerializedSize, which the storage gas is charged on, to the binary length).
+func wire(tx *types.Tx) *types.Tx {
+	raw, err := tx.MarshalText()
+	if err != nil {
+		ev.Fatal("world: %v", err)
+	}
+	out := &types.Tx{}
+	if err := out.UnmarshalText(raw); err != nil {
+		ev.Fatal("world: %v", err)
+	}
+	if out.ID != tx.ID {
+		ev.Fatal("world: transaction id changes in the round trip")
+	}
+	return out
+}
+
 func measure(tx *types.Tx, height uint64) int64 {
 	gs, err := validation.ValidateTx(tx.Tx, &bc.Block{BlockHeader: &bc.BlockHeader{Height: height}}, nil)
 	if err != nil {
@@ -102,29 +119,17 @@ func measure(tx *types.Tx, height uint64) int64 {
 	return gs.GasUsed
 }
 
-// heavy builds a transaction spending in whose validation uses exactly `target` gas (storage gas is two per
-// byte of ballast because the size is measured on the hex text; an extra output adjusts the parity).
+// heavy builds a transaction spending in whose validation uses exactly `target` gas (one storage gas per
+// byte of ballast in its output program).
 func heavy(in labnet.Out, target int64, tag byte) *types.Tx {
 	n := 1000
-	extra := false
 	for try := 0; try < 40; try++ {
-		outs := []*types.TxOutput{btm(500000, bigProg(n, tag))}
-		if extra {
-			outs = append(outs, btm(500000, labnet.Prog(tag)))
-		}
-		tx := labnet.Tx([]labnet.Out{in}, outs)
+		tx := wire(labnet.Tx([]labnet.Out{in}, []*types.TxOutput{btm(500000, bigProg(n, tag))}))
 		g := measure(tx, 1)
 		if g == target {
 			return tx
 		}
-		d := target - g
-		switch {
-		case d%2 == 0 || d > 400 || d < -400:
-			n += int(d / 2)
-		default:
-			// odd distance: toggling the second output changes the size by an amount of the other parity (if it does not, give up below)
-			extra = !extra
-		}
+		n += int(target - g)
 		if n < 0 {
 			break
 		}
@@ -273,20 +278,14 @@ func world() {
 
 	// mempool alphabet. The tip differs between the states, so the transaction with the ending time range
 	// exists once per tip height; alpha[3] is replaced per state in txFor().
-	t1 := labnet.Pay([]labnet.Out{small[0]}, labnet.Prog(0x71))
-	t2 := labnet.Pay([]labnet.Out{{Tx: t1, Idx: 0}}, labnet.Prog(0x72))
-	t3 := labnet.Pay([]labnet.Out{small[0]}, labnet.Prog(0x73))
+	t1 := wire(labnet.Pay([]labnet.Out{small[0]}, labnet.Prog(0x71)))
+	t2 := wire(labnet.Pay([]labnet.Out{{Tx: t1, Idx: 0}}, labnet.Prog(0x72)))
+	t3 := wire(labnet.Pay([]labnet.Out{small[0]}, labnet.Prog(0x73)))
 	// t5: a confirmed normal output first, the immature coinbase second
-	t5 := labnet.Pay([]labnet.Out{small[0], cb21}, labnet.Prog(0x75))
+	t5 := wire(labnet.Pay([]labnet.Out{small[0], cb21}, labnet.Prog(0x75)))
 	alpha = []*poolTx{{Name: "t1", Tx: t1}, {Name: "t2", Tx: t2}, {Name: "t3", Tx: t3}, {Name: "t4"}, {Name: "t5", Tx: t5}}
 	// bulk: 32 transactions using (maxBlockGas - 430000) gas in total; g1 + g2 = 430000 exactly
-	// the size is measured on the hex text, so storage gas is even and every heavy transaction has the parity
-	// of the (common) cost of running the spent program; the 34 targets are chosen with that parity
-	parity := measure(labnet.Tx([]labnet.Out{heavyOuts[0]}, []*types.TxOutput{btm(500000, bigProg(10, 0))}), 1) % 2
 	per := int64(maxBlockGas-430000) / nBulk
-	if per%2 != parity {
-		per--
-	}
 	for i := 0; i < nBulk; i++ {
 		target := per
 		if i == nBulk-1 {
@@ -294,8 +293,7 @@ func world() {
 		}
 		bulk = append(bulk, &poolTx{Name: fmt.Sprintf("b%d", i+1), Tx: heavy(heavyOuts[i], target, byte(i+1))})
 	}
-	g1 := int64(215000) - parity
-	alpha = append(alpha, &poolTx{Name: "g1", Tx: heavy(heavyOuts[32], g1, 0xe1)}, &poolTx{Name: "g2", Tx: heavy(heavyOuts[33], 430000-g1, 0xe2)})
+	alpha = append(alpha, &poolTx{Name: "g1", Tx: heavy(heavyOuts[32], 215001, 0xe1)}, &poolTx{Name: "g2", Tx: heavy(heavyOuts[33], 214999, 0xe2)})
 	for _, p := range append(append([]*poolTx{}, alpha...), bulk...) {
 		if p.Tx == nil {
 			continue
@@ -310,7 +308,7 @@ func world() {
 			continue
 		}
 		d := types.TxData{Version: 1, TimeRange: h, Inputs: []*types.TxInput{labnet.SpendInput(small[1], nil)}, Outputs: []*types.TxOutput{btm(small[1].Amount()-labnet.Fee, labnet.Prog(0x74))}}
-		p := &poolTx{Name: "t4", Tx: labnet.SizedTx(d), TimeRange: h}
+		p := &poolTx{Name: "t4", Tx: wire(labnet.SizedTx(d)), TimeRange: h}
 		p.Gas = measure(p.Tx, h)
 		t4s[h] = p
 		byID[p.Tx.ID] = p
@@ -353,12 +351,12 @@ func classifyErr(err error) string {
 	switch {
 	case strings.Contains(s, "gas is over"):
 		return "block-gas-over-limit"
+	case strings.Contains(s, "utxo") || strings.Contains(s, "spent"):
+		return "utxo"
 	case strings.Contains(s, "coinbase"):
 		return "coinbase"
 	case strings.Contains(s, "time range"):
 		return "tx-time-range"
-	case strings.Contains(s, "utxo") || strings.Contains(s, "spent"):
-		return "utxo"
 	case strings.Contains(s, "timestamp"):
 		return "timestamp"
 	case strings.Contains(s, "signature"):
@@ -441,13 +439,16 @@ func runCase(h []int, _ json.RawMessage) (out xplore.Out) {
 		out.Digest = "template-error"
 		return
 	}
+	// what peers will receive must be the same block
 	raw, _ := block.MarshalText()
-	fed := &types.Block{}
-	if err := fed.UnmarshalText(raw); err != nil {
+	decoded := &types.Block{}
+	if err := decoded.UnmarshalText(raw); err != nil {
 		viol("proposed-block-does-not-decode", "%v", err)
-		return
+	} else if decoded.Hash() != block.Hash() || len(decoded.Transactions) != len(block.Transactions) {
+		viol("proposed-block-changes-in-serialisation", "hash %s -> %s", hashStr(block.Hash()), hashStr(decoded.Hash()))
 	}
-	orphan, perr := nd.Chain.ProcessBlock(fed)
+	// the node feeds its template to its own chain (as proposal/blockproposer does)
+	orphan, perr := nd.Chain.ProcessBlock(block)
 	out.Steps++
 	out.Checks++
 	switch {
@@ -617,6 +618,8 @@ func runCase(h []int, _ json.RawMessage) (out xplore.Out) {
 	_ = optional
 	return
 }
+
+func hashStr(h bc.Hash) string { return h.String()[:8] }
 
 func names(ps []*poolTx) string {
 	var s []string
